@@ -141,6 +141,28 @@ theorem C15_nested_slice_resolved (out : List Var) (n m k : Str) (sl : List PSli
   · simp only [bind, Except.bind, pure, Except.pure]
     rcases C15_hyperslab_applied_or_rejected b sl with ⟨_, _, h⟩ | ⟨_, h⟩ <;> simp [h]
 
+/-- **Which exception classes the guarded region raises, and a request that reaches each**: the
+    model's error type has these constructors that `guarded` produces — `ValueError` (a path without
+    a dot, a non-numeric index), `ConstraintExpressionError` (an over-long hyperslab, a hyperslab
+    outside the array, `dap4.ce=`), `KeyError` (an unknown extension, an unknown member),
+    `AttributeError` (`fix_shorthand` on the one-character call token `(`), and the unresolved
+    class (a path through a base variable).  Each is answered with the error document / an answer
+    (`C15_contained`); the check runs these and generated requests against the implementation and
+    reports the classes met (coverage table in the evidence). -/
+theorem C15_exception_classes_reached :
+    let ds : Dataset := ⟨cs!"d", [.base { name := cs!"a", ty := cs!"Int32", shape := [3], dims := [], data := [5, 6, 7] }]⟩
+    guarded ds (cs!"/d") [] = .error .valueError ∧
+    guarded ds (cs!"/d.dds") (cs!"a[x]") = .error .valueError ∧
+    guarded ds (cs!"/d.dds") (cs!"a[1:2:3:4]") = .error .ceError ∧
+    guarded ds (cs!"/d.dds") (cs!"a[3]") = .error .ceError ∧
+    guarded ds (cs!"/d.dds") (cs!"dap4.ce=a") = .error .ceError ∧
+    guarded ds (cs!"/d.foo") [] = .error .keyError ∧
+    guarded ds (cs!"/d.dds") (cs!"zz.p") = .error .keyError ∧
+    guarded ds (cs!"/d.dds") (cs!"(") = .error .attributeError ∧
+    guarded ds (cs!"/d.dds") (cs!"a.b") = .error .unspecified ∧
+    guarded ds (cs!"/d.dmr") [] = .error .unspecified := by
+  decide +kernel
+
 /-- the `.flat` part of well-formedness is what carries it: a wrapped `BaseType` left in `var.data` (the
     pinned `apply_projection`) makes the ASCII body raise while it is iterated -/
 theorem C15_body_wrapped_raises (fmt : Int → Str) :
